@@ -68,7 +68,7 @@ type Param struct{ Name, Type string }
 var clauseKeywords = map[string]bool{"func": true, "spec": true, "lemma": true, "requires": true, "ensures": true, "modifies": true,
 	"pure": true, "inline": true, "assumed": true, "fp": true, "loop": true, "ghost": true, "property": true, "opaque": true,
 	"noframe": true, "trusted": true, "deterministic": true, "maxinline": true, "allowpanic": true, "import": true, "intsmath": true, "nocanary": true,
-	"havocglobals": true, "readsheap": true, "alloclimit": true, "casesplit": true, "table": true, "inlinecalls": true, "unrollcalls": true, "replay": true, "fpcmp": true, "stream": true, "timeout": true, "thorough": true, "terminates": true}
+	"havocglobals": true, "readsheap": true, "alloclimit": true, "casesplit": true, "table": true, "inlinecalls": true, "unrollcalls": true, "replay": true, "fpcmp": true, "stream": true, "timeout": true, "thorough": true, "terminates": true, "decreases": true, "absmod": true}
 
 type ContractSet struct {
 	ByPkg   map[string][]*Contract // pkg dir -> contracts in file order
@@ -780,6 +780,14 @@ func (c *Contract) gen(b *strings.Builder, idx int) error {
 		}
 		fmt.Fprintf(b, "//line %s:%d\nfunc %s(%s) %s { return %s }\n\n", c.File, c.Line, c.Name, paramList(c.Params), res, body)
 		c.GenName = c.Name
+		if d := c.Flags["decreases"]; d != "" {
+			// recursive spec function: its termination measure
+			m, err := rewriteSpec(d, nil)
+			if err != nil {
+				return err
+			}
+			fmt.Fprintf(b, "//line %s:%d\nfunc %s_vcmeasure(%s) int { return int(%s) }\n\n", c.File, c.Line, c.Name, paramList(c.Params), m)
+		}
 		return nil
 	case "lemma", "func":
 		var pre, post strings.Builder
